@@ -571,6 +571,11 @@ namespace pika::mpi::experimental {
                     (std::uint64_t) (std::uintptr_t) ready_callback_.request_,
                     (std::uint64_t) ready_callback_.err_);
 #endif
+#if defined(PIKA_VERIF)
+                // the dequeue just reported (2006) happened in the second, post-lock drain loop
+                PIKA_VERIF_POINT(2012, nullptr,
+                    (std::uint64_t) (std::uintptr_t) ready_callback_.request_, 2);
+#endif
                 // decrement before invoking callback : race if invoked code checks in_flight
                 --mpi_data_.all_in_flight_;
                 PIKA_INVOKE(std::move(ready_callback_.cb_), ready_callback_.err_);
